@@ -455,6 +455,14 @@ func runUtxo(seed uint64, n int, outDir string, replay string) {
 				case mode == 96:
 					data = rc.Bytes(1 + rc.Intn(30))
 				}
+				if adversarial >= 20 && adversarial < 28 && mode >= 75 && mode < 93 {
+					// an output to a Quai-ledger address of this zone that is neither a conversion nor a wrapping (no data, or
+					// data of another length): no Qi output may be created for it
+					data = nil
+					if adversarial%2 == 1 {
+						data = rc.Bytes(1 + rc.Intn(19))
+					}
+				}
 				txChain := utChainID
 				if adversarial == 17 {
 					txChain = big.NewInt(1)
@@ -576,8 +584,27 @@ func runUtxo(seed uint64, n int, outDir string, replay string) {
 				lhs := new(big.Int).Set(totalIn)
 				rhs := new(big.Int).Add(local, sent)
 				rhs.Add(rhs, conv).Add(rhs, fee)
-				if pre := ptn < params.QiWrappingChangeBlock; !(pre && mode >= 85 && mode < 93) && lhs.Cmp(rhs) != 0 {
-					o.Violate("c01-value-not-conserved", fmt.Sprintf("inputs %s != local outputs %s + sent %s + converted %s + fee %s", lhs, local, sent, conv, fee))
+				legacyWrap := ptn < params.QiWrappingChangeBlock && mode >= 85 && mode < 93
+				if lhs.Cmp(rhs) != 0 {
+					sig := "c01-value-not-conserved"
+					if legacyWrap {
+						sig += ":legacy-wrapping" // before the QiWrappingChangeBlock fork a wrapping output is both kept as a local output and sent as an ETX
+					}
+					o.Violate(sig, fmt.Sprintf("inputs %s != local outputs %s + sent %s + converted %s + fee %s", lhs, local, sent, conv, fee))
+				}
+				// C16: every Qi output the accepted transaction created in this zone's ledger belongs to a Qi-ledger address
+				// of this zone (read back from the batch / database, not from the transaction)
+				for i := range outs {
+					if u := rawdb.GetUTXOWithBatch(db, batch, th, uint16(i)); u != nil {
+						a := common.BytesToAddress(u.Address, utLoc)
+						if _, err := a.InternalAndQiAddress(); err != nil || len(u.Address) != 20 {
+							sig := "c16-qi-output-for-non-qi-address"
+							if legacyWrap {
+								sig += ":legacy-wrapping"
+							}
+							o.Violate(sig, fmt.Sprintf("accepted Qi transaction %x created output %d for address %x, which is not a Qi-ledger address of zone %v", th.Bytes()[:6], i, u.Address, utLoc))
+						}
+					}
 				}
 				// outputs created in this block become spendable by later txs of the block
 				for i, out := range outs {
